@@ -46,12 +46,13 @@ def run(ctx):
                 "decays": [[k, mode_canon_py(v)] for k, v in dc.decays.items()]}
         before = canon_json(case["decays"])
         want_bf, want_fs = spec_flatten(dc.decays, dc.mother, stable)
+        wire_decays = [[k, v.bf, v.daughters.to_list()] for k, v in dc.decays.items()]      # as they are before the call
         try:
             fl = dc.flatten(stable_particles=stable)
         except Exception as e:
             res.violation(f"flatten raised {type(e).__name__}: {e}", case, clause="flatten")
             res.case()
-            return
+            return True
         after = canon_json([[k, mode_canon_py(v)] for k, v in dc.decays.items()])
         got_bf, got_fs = fl.bf, fl.top_level_decay().daughters.to_list()
         exact = isinstance(want_bf, Fraction)
@@ -66,7 +67,8 @@ def run(ctx):
             res.violation("result still has sub-decays", case, impl=list(fl.decays), clause="no sub-decays")
         if not meta_ok:
             res.violation("top-level model information not kept", case, impl=dict(fl.top_level_decay().metadata), clause="metadata")
-        if before != after:
+        changed = before != after
+        if changed:
             res.violation("flatten changed the original chain", case, clause="original unchanged")
         replaced = [k for k in dc.decays if k not in stable and k != dc.mother]
         nt = canon_json([case["decays"], case["stable"]]) if len(replaced) >= 2 else None
@@ -81,7 +83,10 @@ def run(ctx):
                     res.violation("model flatten differs from the tree specification / the code", case, model=ans, impl=[repr(want_bf), want_fs],
                                   clause="model tie: flatten")
 
-            batch.add(["flatten", dc.mother, [[k, v.bf, v.daughters.to_list()] for k, v in dc.decays.items()], sorted(stable)], on)
+            batch.add(["flatten", dc.mother, wire_decays, sorted(stable)], on)
+        # a chain that a call has modified is not used again (its later answers would only repeat the finding, and a chain that
+        # grows at every call makes the run unbounded)
+        return not changed
 
     def stable_sets(dc, rng, all_if=6):
         cand = [k for k in dc.decays if k != dc.mother]
@@ -109,16 +114,25 @@ def run(ctx):
         if tier == "quick" and len(spec) == 4 and n_exh % 3:
             continue
         dc = build_chain(spec, rng, exact=True, with_meta=False)
+        intact = True
         for st in stable_sets(dc, rng, all_if=4 if tier == "quick" else 6):
-            one(dc, st, "exhaustive")
+            if not one(dc, st, "exhaustive"):
+                intact = False
+                break
         # every permutation of the mapping (small cases)
-        if len(spec) <= (4 if tier == "quick" else 5):
+        if intact and len(spec) <= (4 if tier == "quick" else 5):
+            snap0 = canon_json([[k, mode_canon_py(v)] for k, v in dc.decays.items()])
             base = dc.flatten()
             for perm in itertools.permutations(list(dc.decays.items())):
                 dcp = DecayChain(dc.mother, dict(perm))
                 f = dcp.flatten()
                 res.case()
                 res.count("permutations")
+                if canon_json([[k, mode_canon_py(v)] for k, v in dc.decays.items()]) != snap0:
+                    res.violation("flatten changed the decay modes of the chain it was called on (shared with the original chain)",
+                                  {"kind": "perm", "mother": dc.mother, "decays": [[k, mode_canon_py(v)] for k, v in dc.decays.items()]},
+                                  clause="original unchanged")
+                    break
                 if f.bf != base.bf or f.top_level_decay().daughters.to_list() != base.top_level_decay().daughters.to_list():
                     res.violation("flatten depends on the order of the sub-decay mapping",
                                   {"kind": "perm", "mother": dc.mother, "order": [k for k, _ in perm]}, clause="order independence")
@@ -131,7 +145,8 @@ def run(ctx):
         rng.shuffle(items)
         dc = DecayChain(dc.mother, dict(items))
         for st in rng.sample(stable_sets(dc, rng), k=3):
-            one(dc, st, "random")
+            if not one(dc, st, "random"):
+                break
     # stable set given as other iterables
     dc = build_chain([("A", ["B", "B", "c"]), ("B", ["d", "E"]), ("E", ["f", "f"])], rng, exact=True)
     for st in (("B",), {"B"}, ["E"], "E", {"E": 1}):
